@@ -95,3 +95,12 @@ claim("C14", "TLC model checking of the memo/mutation state machine + TLC-enumer
       "asymmetric unit, every answer to the same (query, state) is the same (register), queries leave the state untouched, a switch produces exactly the state the spec computes.",
       "Answers are compared as digests of canonical projections; exported texts are compared through the structure they load back to; the only state-changing "
       "operation offered by the API in scope is choose_trigonal_lattice.")
+
+claim("C19", "TLC trace validation against an exact half-space intersection computed in TLA+ + model checking of the construction pipeline on named polyhedra",
+      "Wulff.tla computes, in exact integer/BigInt arithmetic on rational unit normals (Pythagorean quadruples) and rational energies, the vertices of {x : n_i.x <= e_i} "
+      "from all plane triples (Cramer), facet membership, edges and the volume. MC_Wulff runs the code's pipeline step by step (dual points, hull simplices, vertices and "
+      "facet lists, prune and CCW order, fan triangles) on 9 named polyhedra x 5 rational scales x 3 simplex rotations against hand-computed vertex sets and volumes and the "
+      "scaling law. Real WulffConstruction objects (named/degenerate shapes, generic centrosymmetric and non-centrosymmetric facet sets of 6-20 facets in quick, up to 60 in "
+      "thorough, energies within a factor two) are validated by TLC: vertex set equality, all inequalities, >= 3 facets per vertex, exact facet lists, outward closed mesh "
+      "(raw triangles merged by position and to_trimesh), edge set, exact and float volume, and scaling by a rational factor.",
+      "Vertices are projected to the exact rational vertex set (residual bound 1e-8); needle-like shapes beyond 32 units and vertices closer than 1e-4 are out of domain (guards evaluated by TLC).")
